@@ -34,11 +34,14 @@ TREE = {"a.txt": "A-file", "index.html": "ROOT-INDEX", "x.html": "X-HTML", "..na
         "é.txt": "UNICODE", "L" * 100 + "/" + "M" * 100 + "/" + "N" * 100 + ".txt": "LONG-PATH", "dir/index.html": "DIR-INDEX", "dir/b.txt": "B-file", "dir2/c.txt": "C-file", "static/inner.txt": "INNER",
         "v1.2.html": "V12-PAGE", "dir/notes.txt.html": "NOTES-PAGE",
         "dir2.html": "DIR2-SIBLING-PAGE", "dir.html": "DIR-SIBLING-PAGE",  # a directory and a page of the same name: the directory URL redirects
-        "cafe\u0301.txt": "DECOMPOSED-NAME", "caf\u00e9.txt": "COMPOSED-NAME", "\u6587\u4ef6.txt": "CJK-NAME", "\u00c7a.html": "C-CEDILLA-PAGE"}  # two different files: a name is bytes, not normalised text
+        "cafe\u0301.txt": "DECOMPOSED-NAME", "caf\u00e9.txt": "COMPOSED-NAME", "\u6587\u4ef6.txt": "CJK-NAME", "\u00c7a.html": "C-CEDILLA-PAGE",
+        "empty.txt": "", "empty.html": "", "dir/empty.bin": "",  # zero-byte files are files
+        "nb\u00a0sp.txt": "NBSP-NAME", "zw\u200dj.txt": "ZWJ-NAME", "ls\u2028ps.txt": "LINE-SEPARATOR-NAME", "soft\u00adhy.html": "SOFT-HYPHEN-PAGE"}  # two different files: a name is bytes, not normalised text
 OUTSIDE = {"secret.txt": "SECRET-1", "static-secret.txt": "SECRET-2", "static2/s.txt": "SECRET-3", "a.txt": "OUTER-A", "index.html": "OUTER-INDEX"}
 DIRS = {""} | {os.path.dirname(k) for k in TREE if "/" in k} | {"L" * 100}
 SEGS = ["", ".", "..", "a.txt", "dir", "dir2", "..name", "%2e%2e", "index.html", "x", "x.html", "é.txt", "static", "static2", "secret.txt", "nope",
-        "index", "b.txt", ".hidden", "static-secret.txt", "sock", "v1.2", "notes.txt", "cafe\u0301.txt", "\u6587\u4ef6.txt", "\u00c7a"]
+        "index", "b.txt", ".hidden", "static-secret.txt", "sock", "v1.2", "notes.txt", "cafe\u0301.txt", "\u6587\u4ef6.txt", "\u00c7a",
+        "empty.txt", "empty", "nb\u00a0sp.txt", "zw\u200dj.txt", "soft\u00adhy"]
 
 
 def make_special(served):
